@@ -124,7 +124,7 @@ fn run(prop: &str, tier: &str) -> i32 {
             "note": "pages shorter than min(limit or 10, 30) although more current items follow. For unfiltered listings such a page is a violation; for the filtered listing (cw1-subkeys AllAllowances, which drops expired entries) a short non-empty page would only be reported here, an empty one is a violation (the walk would end early). The real code filters before `take(limit)`, so none occur.",
         }),
     );
-    rep.alphabet = "pager states (listing, store of n items, limit, cursor): 32 listing variants (cw20-base AllAccounts (all funded; and with runs of emptied accounts at the start, middle and end of the key order) / AllAllowances / AllSpenderAllowances (each also after `migrate` from the pre-0.14 layout - also migrated at a later block at which some allowances have expired -, and after full revocations / re-grants of mutual allowances at the start, middle and end of the key order); cw1-subkeys AllAllowances with seven expiry patterns × query blocks (one at a block time with a sub-second part and AtTime expiries inside that second), AllPermissions (also with permission holders that are admins, made admin before or promoted after); cw3-fixed and cw3-flex ListProposals / ReverseProposals / ListVotes / ListVoters (cw3-flex ListVotes also after some / all of the voters left the backing group or were re-weighted to 0); cw4-group and cw4-stake ListMembers (removed / unbonded / never-admitted addresses are cursors too); cw20-ics20 ListAllowed); limits {absent, 0, 1, 2, 9, 10, 11, 29, 30, 31, 32, 100, 2^32-1}; cursors: none, every stored key as start_after / start_before (for the filtered listing also the keys of expired entries), and the walk from the beginning with the last returned key as next cursor until an empty page".into();
+    rep.alphabet = "pager states (listing, store of n items, limit, cursor): 34 listing variants (cw20-base AllAccounts (all funded; and with runs of emptied accounts at the start, middle and end of the key order) / AllAllowances / AllSpenderAllowances (each also after `migrate` from the pre-0.14 layout - also migrated at a later block at which some allowances have expired -, after full revocations / re-grants of mutual allowances at the start, middle and end of the key order, and after TransferFrom / BurnFrom / SendFrom draws that use up allowances exactly); cw1-subkeys AllAllowances with seven expiry patterns × query blocks (one at a block time with a sub-second part and AtTime expiries inside that second), AllPermissions (also with permission holders that are admins, made admin before or promoted after); cw3-fixed and cw3-flex ListProposals / ReverseProposals / ListVotes / ListVoters (cw3-flex ListVotes also after some / all of the voters left the backing group or were re-weighted to 0); cw4-group and cw4-stake ListMembers (removed / unbonded / never-admitted addresses are cursors too); cw20-ics20 ListAllowed); limits {absent, 0, 1, 2, 9, 10, 11, 29, 30, 31, 32, 100, 2^32-1}; cursors: none, every stored key as start_after / start_before (for the filtered listing also the keys of expired entries), and the walk from the beginning with the last returned key as next cursor until an empty page".into();
     rep.oracle = "expected listing = the constructed key set sorted by key bytes (numerically for proposal ids, descending for ReverseProposals), each key confirmed by the contract's point query (Balance, Allowance, Permissions, Proposal, Vote, Voter, Member, Allowed); every page must be the run of the next min(limit or 10, 30) expected entries after the cursor (fewer only at the end), each entry equal to the point query's answer; no page exceeds the requested limit, 30, or 10 without a limit; the page without a limit equals the page with limit 10; limit 0 gives an empty page; for every limit >= 1 the walk until an empty page returns every current item exactly once in order and terminates".into();
     rep.bounds = format!(
         "complete enumeration of sizes {:?} × 13 limits × (n+1) cursors + 13 walks per (listing, size){}; stores contain noise entries in neighbouring prefixes/namespaces",
@@ -138,6 +138,7 @@ fn run(prop: &str, tier: &str) -> i32 {
         "cw3-flex ListVoters / Voter are answered by a real cw4-group through the kernel's smart and raw queries".into(),
         "cw20-base AllAccounts over emptied accounts (balance transferred away, entry of 0 remains): the property does not say whether such an account is still an item; the unchanged code lists them, and the check accepts either reading (all stored accounts, or funded accounts only) provided the listing follows it completely for every limit and cursor".into(),
         "cw20 allowance listings after revocations: the property does not fix whether a fully decreased allowance (point query reads 0) is still an item. Two readings are accepted - it is not listed (the unchanged code), or it is listed with amount exactly 0 (any expiry) - provided all pages and both the owner and the spender listing of the store follow the same reading; a revoked pair listed with a non-zero amount is a violation, and every pair whose point query is non-zero must be listed once with that amount. The migrated stores are produced by wiping the `allowance_spender` namespace, setting cw2 version 0.13.4 and running the real migrate".into(),
+        "cw20 allowance listings after draws to exactly zero: the unchanged code keeps the used-up pair as a zero entry in both maps; it may be listed (with what the point query reports) or not, but the owner and the spender listing of the store must agree".into(),
         "cw3-fixed ListVoters with 0 voters is not constructible (instantiate refuses); cw20-ics20 ListChannels has no paging and is not covered".into(),
     ];
     rep.runs = runs;
@@ -182,10 +183,10 @@ fn replay_once(case: &Value) -> Result<(Vec<String>, Vec<(String, String)>), Str
     }
     if mode == "readings" {
         let lines = vec![format!(
-            "store: {} n={}: the other listing over the same store {} fully revoked pairs",
+            "store: {} n={}: the other listing over the same store {} zero-amount (revoked / used-up) pairs",
             l.name,
             n,
-            match b.sibling_follows_alt {
+            match b.sibling_lists_optional {
                 Some(true) => "lists",
                 Some(false) => "does not list",
                 None => "has no",
